@@ -84,6 +84,7 @@ impl WaitGroup {
     // Slow path: Wait for notification.
     loop {
       // Wait until notified. notified() consumes a permit.
+      #[cfg(rzmq_verif)] crate::verif::rpq::schedule_point("wg_wait_before_notified");
       self.notify_on_zero.notified().await;
 
       // Check count again after notification (spurious wakeup or race check).
